@@ -214,10 +214,17 @@ class Gen:
         if depth < lim and c < 0.20:
             return self.array(depth + 1)
         c = r.random()
-        if c < 0.30:
+        if c < 0.28:
             return self.integer(-2**63, 2**63 - 1)
+        if c < 0.30:
+            from sim.values import IntSub, int_enum
+            n = self.integer(-2**63, 2**63 - 1)
+            return IntSub(n) if r.random() < 0.5 else int_enum(n)
         if c < 0.40:
             return r.random() < 0.5
+        if c < 0.41:
+            from sim.values import StrSub
+            return StrSub(self.text())
         if c < 0.55:
             return self.text()
         if c < 0.62:
